@@ -151,6 +151,13 @@ impl Obs {
     pub fn nontrivial(&mut self) {
         self.nontrivial_now = true;
     }
+    /// Sweep mode: read and reset the per-case non-trivial flag set by a point function.
+    #[inline]
+    pub fn take_nontrivial(&mut self) -> bool {
+        let b = self.nontrivial_now;
+        self.nontrivial_now = false;
+        b
+    }
     #[inline]
     pub fn nontrivial_if(&mut self, b: bool) {
         if b {
@@ -743,7 +750,8 @@ impl Harness {
         if let Mode::Replay { .. } = self.mode {
             return;
         }
-        if self.only.is_some() {
+        if self.only.is_some() || !self.violations.is_empty() {
+            // workers stop at their first failure, so class counts are not meaningful then
             return;
         }
         let got = self
